@@ -197,6 +197,19 @@ func (x *run) checkC02(obs []seen) *Failure {
 			inst[k] = inv
 		}
 	}
+	// what a singleton was constructed with is seen by every scope that resolves the singleton
+	for _, inv := range x.W.AllInvs() {
+		if x.M.Regs[inv.Reg].Life != kit.Singleton {
+			continue
+		}
+		for _, a := range inv.Args {
+			for _, e := range a.Entries {
+				if e != nil && e.Inv != nil && x.M.Regs[e.Reg].Life == kit.Scoped {
+					return fail("C02", "not-shared", "held-by-singleton/"+depVia(a.Dep), "singleton r%d was constructed with %v, an instance of scoped r%d: every scope that resolves the singleton shares that one instance", inv.Reg, e, e.Reg)
+				}
+			}
+		}
+	}
 	for _, s := range obs {
 		reg := x.M.Regs[s.Owner.Reg]
 		if reg.Life != kit.Scoped || reg.Form == kit.FormInstance {
@@ -604,6 +617,14 @@ func TestC02Scoped(t *testing.T) {
 		// constructor somewhere the per-scope rule holds all the same
 		faulty:      true,
 		faultOracle: func(x *run, obs []seen) *Failure { return x.checkC02(obs) },
+		// now and then a long-lived service is given a dependency (plain, keyed, through a group,
+		// optional) on a scoped one: Build has to refuse that - when it does not, whatever the
+		// singleton was built with is one scoped instance that every scope sees
+		mutate: func(rt *rapid.T, cfg *kit.Config) {
+			if rapid.IntRange(0, 5).Draw(rt, "plantCaptive") == 0 {
+				kit.PlantCaptive(rt, cfg)
+			}
+		},
 	}, "histories")
 }
 
